@@ -107,7 +107,7 @@ class IsoInput(symval.Node):
         return evs, pick(env[self.final_d], 4), ("C", "Sub")[pick(env[self.final_cls], 2)]
 
 
-def make_input_plan(T, variant, k=1, small=False, **kw):
+def make_input_plan(T, variant, k=1, small=False, shared=False, **kw):
     ctx = symval.Ctx()
     if variant.startswith("iso"):
         return ctx, IsoInput(ctx, k, small)
@@ -450,12 +450,18 @@ def uni_main(S, env):
     return True
 
 
-def setup(T, NODE, CTX, variant, k=1, fmt=None, dname=None, small=False):
+def setup(T, NODE, CTX, variant, k=1, fmt=None, dname=None, small=False, shared=False):
     S = S_()
     S.node, S.ctx, S.variant = NODE, CTX, variant
     if variant.startswith("uni"):
         S.fmt, S.dname = fmt, dname
         D = UNI_DIALECTS[dname]
+        if shared:
+            # one user dialect shared by codecs of several formats in one process: the codecs of every OTHER format are
+            # constructed first (whatever is cached per user dialect must not carry another format's requirements)
+            for f2 in ("orjson", "msgpack", "toml", "json", "yaml"):
+                if f2 != fmt:
+                    build_format_codecs(f2, D)
         S.enc, S.dec = build_format_codecs(fmt, D)
         S.basic_enc = BasicEncoder(UT, default_dialect=D).encode
         S.basic_dec = BasicDecoder(UT, default_dialect=D).decode
